@@ -175,6 +175,38 @@ Theorem C03_run_final :
 Proof. exact main_run_final. Qed.
 Print Assumptions C03_run_final.
 
+(* ---- update_ancestors_of (mirror model/LAOStar.v:anc_loop, a stack-based search with the parent
+        sets iterated in an arbitrary order pord): the collected set is exactly the closure of the
+        expanded state under "valid parent" (ancestors_closure), hence does not depend on the
+        iteration order of parent_states (ancestors_order_indep; also used by C13), and it satisfies
+        the closure clause of the machine's guard (ancestors_guard) ---- *)
+Theorem C03_ancestors_closure :
+  forall (vp : nat -> nat -> bool) (parents : nat -> nat -> Prop) (pord : nat -> list nat),
+  (forall n p, In p (pord n) <-> parents n p) ->
+  forall fuel x A, ancestors_of pord vp fuel x = Some A -> forall s, In s A <-> anc vp parents x s.
+Proof. exact ancestors_closure. Qed.
+Print Assumptions C03_ancestors_closure.
+
+Theorem C03_ancestors_order_indep :
+  forall (vp : nat -> nat -> bool) (parents : nat -> nat -> Prop) pord1 pord2 fuel1 fuel2 x A1 A2,
+  (forall n p, In p (pord1 n) <-> parents n p) ->
+  (forall n p, In p (pord2 n) <-> parents n p) ->
+  ancestors_of pord1 vp fuel1 x = Some A1 -> ancestors_of pord2 vp fuel2 x = Some A2 ->
+  forall s, In s A1 <-> In s A2.
+Proof. exact ancestors_order_indep. Qed.
+Print Assumptions C03_ancestors_order_indep.
+
+Theorem C03_ancestors_guard :
+  forall (m : mdp R) (E : nat -> bool) (pol : nat -> nat) (vp : nat -> nat -> bool)
+         (parents : nat -> nat -> Prop) (x : nat) (Z : nat -> bool),
+  (forall s ns, (s < nS m)%nat -> (ns < nS m)%nat -> E s = true -> 0 < Pm m s (pol s) ns ->
+                parents ns s /\ vp s ns = true) ->
+  (forall s, Z s = true <-> anc vp parents x s) ->
+  forall s, (s < nS m)%nat -> E s = true -> Z s = false ->
+  forall ns, (ns < nS m)%nat -> 0 < Pm m s (pol s) ns -> Z ns = false.
+Proof. exact ancestors_guard. Qed.
+Print Assumptions C03_ancestors_guard.
+
 (* ---- non-vacuity: on a concrete 4-state MDP with stochastic branching, an ignored paying
         self-loop at the absorbing state and an explored-but-unexpanded state, both checkers accept
         LAO*'s result / 3-iteration run, an optimum exists, and the policy-evaluation hypothesis is
